@@ -192,8 +192,8 @@ func c10BigIntegers(c *engine.Ctx) {
 		v := new(big.Int).SetUint64(seq >> (64 - bits))
 		return v.SetBit(v, int(bits-1), 1) // full width
 	}
-	for _, bits := range []uint{30, 40, 52, 53} {
-		for n := 0; n < 400; n++ {
+	for _, bits := range []uint{24, 26, 27, 30, 31, 32, 40, 52, 53} {
+		for n := 0; n < 200; n++ {
 			ax, ay := new(big.Int).Neg(next(bits)), new(big.Int).Neg(next(bits))
 			bx, by := next(bits), next(bits)
 			if n%4 == 1 {
@@ -339,4 +339,24 @@ func sweepMixedScale(c *engine.Ctx, emit func(a, b, p [2]float64)) {
 
 func c10MixedScale(c *engine.Ctx) {
 	sweepMixedScale(c, func(a, b, p [2]float64) { c10Lean(c, "mixed_scale_cases", a, b, p) })
+}
+
+// c10IntRange: every triple over the integer values at the ends of the 32-bit range and around
+// zero, {-2^31, -2^31+1, -2^30, -1, 0, 1, 2^30, 2^31-1}^2: fat triangles whose cross product
+// exceeds 2^63 (an evaluation in 64-bit integers wraps around) next to degenerate ones.
+func c10IntRange(c *engine.Ctx) {
+	v := []float64{-2147483648, -2147483647, -1073741824, -1, 0, 1, 1073741824, 2147483647}
+	var pts [][2]float64
+	for _, x := range v {
+		for _, y := range v {
+			pts = append(pts, [2]float64{x, y})
+		}
+	}
+	c.Parallel(len(pts), func(i int) {
+		for j := i; j < len(pts); j++ {
+			for k := j; k < len(pts); k++ {
+				c10Lean(c, "int_range_cases", pts[i], pts[j], pts[k]) // all six orders inside
+			}
+		}
+	})
 }
